@@ -41,6 +41,10 @@ def load(tier):
             depth = {1: 4, 2: 3, 3: 2}[n]
         for lay in sp.enumerate_layouts(n, depth):
             LAYOUTS.append((heads, lay))
+    # exclusive interpretations that differ from a known spine type only by letter case: they are other spine types, kept literally
+    for heads in (('**Kern', '**TEXT'), ('**kern', '**Dynam', '**KERN'), ('**Text',)):
+        for lay in sp.enumerate_layouts(len(heads), 1):
+            LAYOUTS.append((heads, lay))
     LAYOUTS.extend(sp.curated_layouts())      # deep hand-picked layouts beyond the enumeration depth (nested splits, several join groups, 5 columns)
 
 
